@@ -494,6 +494,10 @@ func (o *orbitDB) Create(ctx context.Context, name string, storeType string, opt
 
 	if options == nil {
 		options = &CreateDBOptions{}
+	} else {
+		// the options are filled in below: on a copy, the caller may use its value for other
+		// calls, also at the same time
+		options = copyCreateDBOptions(options)
 	}
 
 	// The directory to look databases from can be passed in as an option
@@ -539,6 +543,11 @@ func (o *orbitDB) Open(ctx context.Context, dbAddress string, options *CreateDBO
 
 	if options == nil {
 		options = &CreateDBOptions{}
+	} else {
+		// the options are filled in below (among others with the access-controller address
+		// found in the manifest): on a copy, the caller may use its value for other calls,
+		// also at the same time
+		options = copyCreateDBOptions(options)
 	}
 
 	if options.Timeout == 0 {
@@ -616,6 +625,11 @@ func (o *orbitDB) Open(ctx context.Context, dbAddress string, options *CreateDBO
 	}
 
 	return store, nil
+}
+
+func copyCreateDBOptions(options *CreateDBOptions) *CreateDBOptions {
+	c := *options
+	return &c
 }
 
 func (o *orbitDB) DetermineAddress(ctx context.Context, name string, storeType string, options *DetermineAddressOptions) (address.Address, error) {
